@@ -64,6 +64,9 @@ CHECKS = {
  "C17": ("model_checking", "regex-to-automaton extraction of both matchers + complete product exploration (language equality), exhaustive paragraph-sequence enumeration through the real command, fault enumeration of the write/unlink order",
          "every dep5 pattern over {a . / * ? \\} up to length 4 (quick) / 6 (thorough): the automaton of python-debian's matcher and of the matcher produced by the real conversion pipeline are compared in both directions over paths of any length (short paths and every counterexample replayed on the real matchers); every sequence of <= 3 Files paragraphs from a 12-entry menu and 36 field variants go through `reuse convert-dep5` with lint --json compared before/after; 6 fault/refusal cells for the write-then-unlink order",
          "realistic relative paths without whitespace; two recorded known findings ('?' and whole-segment '*')", "4/C17"),
+ "C02": ("model_checking", "complete product enumeration of generated comment texts (expected value known by construction) + window/line-ending/snippet placement product through lint",
+         "slice A: every real comment style x {single-line, inline multi-line, block multi-line} x 8 decorations (frame, indentation, trailing blanks, stacked own / foreign terminators) x every licence, contributor and copyright prefix x holder x year value, read by the real extract_reuse_info; slice B: tag position relative to the 4096-byte window x {LF, CRLF, CR} x snippet marker x filler, and a snippet marker at every offset around multiples of 4096; slice C: unparseable expressions silence the file",
+         "values ending in a terminator / mirrored prefix and tags straddling byte 4096 are observed only", "4/C02"),
 }
 PENDING_REASON = "check not built yet in this session (design in DESIGN.md section 4); not claimed until its machinery exists"
 
